@@ -624,6 +624,7 @@ def sections(tier):
 
 _S = "acryo.simulator"
 MUTANTS = [
+    ("fragments:positions-centred-in-place (seeded change C14_12)", "checks.c14", "sec_fragments", {"two_d": False}, {"acryo.simulator": [("    pos = mol.pos / scale\n    center = (np.array(shape) - 1.0) / 2.0\n    corner = pos - center\n", "    pos = mol.pos if scale == 1.0 else mol.pos / scale\n    center = (np.array(shape) - 1.0) / 2.0\n    pos -= center\n    corner = pos\n")]}),
     ("place:revert-even-side-fix", "checks.c14", "sec_rule", {"n_mol": 1},
      {_S: [("    corner = pos - center\n    starts = np.floor(corner).astype(np.int32)\n    residue = corner - starts.astype(np.float32)\n",
             "    intpos = pos.astype(np.int32)\n    residue = pos - intpos.astype(np.float32)\n    starts = intpos - center.astype(np.int32)\n")]}),
